@@ -62,9 +62,12 @@ def output_xml_report(tex, plain, charmap, matches, byte_offset, file, out):
         cont_offset = json_get(cont, 'offset', int)
         cont_length = json_get(cont, 'length', int)
         if byte_offset:
+            # NB: text from the proofreader, may hold lone surrogates;
+            # count them as they are written
             cont_length = len(cont_text[cont_offset:cont_offset+cont_length]
-                                    .encode())
-            cont_offset = len(cont_text[:cont_offset].encode())
+                                    .encode(errors='backslashreplace'))
+            cont_offset = len(cont_text[:cont_offset]
+                                    .encode(errors='backslashreplace'))
 
         xml = {
             'fromy': str(fromy), 'fromx': str(fromx),
